@@ -11,8 +11,8 @@ try:
     ONE = json.load(open(os.path.join(SEEDED, "summaries.json")))
 except Exception:
     pass
-print("| id | breaks | change (one line) | own check, quick | other quick checks that fire |")
-print("|---|---|---|---|---|")
+print("| id | breaks | change (one line) | own check before its report was used | own check, final machinery | other quick checks that fire |")
+print("|---|---|---|---|---|---|")
 for sid in sorted(os.listdir(SEEDED)):
     mp = os.path.join(SEEDED, sid, "meta.json")
     if not os.path.exists(mp):
@@ -25,4 +25,7 @@ for sid in sorted(os.listdir(SEEDED)):
         own = cross[prop]
     own_s = "-" if own is None else ("fires (%d)" % own["violations"] if own["violations"] else "silent")
     others = [c for c, r in sorted(cross.items()) if r["violations"] and c != prop]
-    print("| %s | %s | %s | %s | %s |" % (sid, prop, ONE.get(sid, ""), own_s, ", ".join(others) or "-"))
+    first = "see text"
+    if m.get("cross_commit") and prop in cross:
+        first = "fires (%d)" % cross[prop]["violations"] if cross[prop]["violations"] else "silent"
+    print("| %s | %s | %s | %s | %s | %s%s |" % (sid, prop, ONE.get(sid, ""), first, own_s, ", ".join(others) or "-", " (frozen machinery)" if m.get("cross_commit") else ""))
